@@ -13,6 +13,8 @@ from ..consteval import EnumMember, const_eval, enum_members
 from ..index import AnalysisError, unparse, walk_no_nested
 from .. import query as Q
 from ..rules import escape as E
+from ..rules import escape2 as E2
+from ..facts import Facts, direct, has, has_call, has_const, param_of
 from .. import substchain
 from .. import tables as T
 
@@ -25,22 +27,53 @@ TEXT_FIELDS = {'Name', 'Description', 'URL', 'Version'}
 PKGCONFIG_OPERATORS = {'=', '!=', '<', '<=', '>', '>='}   # pc(5)
 
 
+def _facts(ctx):
+    F = getattr(ctx, '_facts', None)
+    if F is None:
+        F = ctx._facts = Facts(ctx.repo)
+    return F
+
+
+def _member(ctx, F, e, pos, kw, default_fn):
+    """Syntax member an effect passes at (pos, kw), or the default of the
+    callee's parameter."""
+    a = e.arg(pos, kw=kw)
+    ms = {x.split('.')[-1] for x in a if '.Syntax.' in '.' + x or
+          x.startswith('Syntax.')}
+    if not ms:
+        d = Q.param_default(default_fn.node, kw)
+        v = const_eval(ctx.repo, default_fn.module, d) if d is not None \
+            else None
+        if isinstance(v, EnumMember):
+            ms = {v.name}
+    return ms
+
+
 def esc_pc(ctx):
     R = 'ESC-PC'
     ctx.rule(R, 'every value written into a .pc file escapes the characters '
              'pkg-config treats specially on a line (#)')
     repo = ctx.repo
+    F = _facts(ctx)
     table, members = E.escape_table(repo, E.PC_SYN)
-    sites = E.emission_sites(ctx, PC_FUNCS, E.PC_SYN, members, E.classify_pc)
-    ctx.require_min(R, len(sites), 4, 'pc emission sites')
-    E.esc_rule(ctx, R, sites, table, only_contexts={'PC_VALUE'})
-    # names are constants / enum names
-    for f, t, cs in sites:
-        if 'PC_NAME' in cs:
-            ctx.ob(R, f.fq + '|name-written-as-variable-syntax',
-                   t.syntaxes == {'variable'}, t.node,
-                   'field/variable name is not written with Syntax.variable')
-    return sites
+    E2.esc_members(ctx, R, E.PC_SYN, table, {'PC_VALUE'})
+    # names are written with Syntax.variable
+    for fq in PC_FUNCS:
+        f = F.fn(fq)
+        ws = [e for e in F.effects(f, lambda e: e.name == 'write', depth=0)
+              if param_of(e.arg(0), 'name')]
+        ok = bool(ws) and all(has(e.arg(1, kw='syntax'), 'Syntax.variable')
+                              for e in ws)
+        ctx.ob(R, fq.split('.')[-1] + '|name-written-as-variable-syntax', ok,
+               f.node, 'field/variable name is not written with '
+               'Syntax.variable')
+        vs = [e for e in F.effects(f, lambda e: e.name in (
+            'write_each', 'write_shell'), depth=0)]
+        ok = bool(vs) and all(param_of(e.arg(1, kw='syntax'), 'syntax')
+                              for e in vs)
+        ctx.ob(R, fq.split('.')[-1] + '|value-written-with-given-syntax',
+               ok, f.node, 'the value is not written with the syntax the '
+               'caller chose')
 
 
 def field_syntax(ctx):
@@ -49,56 +82,49 @@ def field_syntax(ctx):
              'Libs.private) are written with Syntax.shell; descriptive fields '
              '(Name, Description, URL, Version) with Syntax.variable')
     repo = ctx.repo
-    f = repo.method(PKG + ':PkgConfigWriter', '_write')
-    seen = set()
-    for c in Q.calls(f.node):
-        if unparse(c.func) != 'self._write_field' or len(c.args) < 3:
+    F = _facts(ctx)
+    f = F.fn(PKG + ':PkgConfigWriter._write')
+    wf = F.fn(PKG + ':PkgConfigWriter._write_field')
+    seen = {}
+    for e in F.calls_to(f, '_write_field', depth=1):
+        nm = [a[6:] for a in direct(e.arg(1)) if a.startswith('const:')]
+        if len(nm) != 1:
             continue
-        name = const_eval(repo, f.module, c.args[1])
-        if not isinstance(name, str):
-            raise AnalysisError('_write: non-constant field name')
-        syn = Q.arg(c, 3, 'syntax')
-        member = 'variable'
-        if syn is not None:
-            v = const_eval(repo, f.module, syn)
-            if not isinstance(v, EnumMember):
-                raise AnalysisError('_write: cannot evaluate syntax of ' +
-                                    name)
-            member = v.name
-        seen.add(name)
+        try:
+            name = ast.literal_eval(nm[0])
+        except Exception:
+            continue
+        member = _member(ctx, F, e, 3, 'syntax', wf)
+        seen[name] = (member, e)
         if name in SHELL_FIELDS:
-            ctx.ob(R, name, member == 'shell', c,
+            ctx.ob(R, name, member == {'shell'}, e.call,
                    '{} is written with Syntax.{}: flags with spaces/quotes '
-                   'are not sh-quoted'.format(name, member))
+                   'are not sh-quoted'.format(name, sorted(member)))
         elif name in TEXT_FIELDS:
-            ctx.ob(R, name, member == 'variable', c,
+            ctx.ob(R, name, member == {'variable'}, e.call,
                    '{} is written with Syntax.{}: free text would be '
-                   'sh-quoted'.format(name, member))
+                   'sh-quoted'.format(name, sorted(member)))
         else:
-            ctx.ob(R, name, member in ('shell', 'variable'), c, '')
+            ctx.ob(R, name, bool(member) and member <= {'shell', 'variable'},
+                   e.call, '')
     for n in sorted((SHELL_FIELDS | TEXT_FIELDS | {
-            'Requires', 'Requires.private', 'Conflicts'}) - seen):
+            'Requires', 'Requires.private', 'Conflicts'}) - set(seen)):
         ctx.ob(R, n + '|present', False, f.node,
                'field {} is no longer written'.format(n))
-    # the flags come from the compiler/linker in pkg-config mode
-    txt = unparse(f.node)
-    for var, src in (('cflags', "compiler.flags(compile_options, "
-                                "mode='pkg-config')"),
-                     ('ldflags', "linker.flags(link_options, "
-                                 "mode='pkg-config')")):
-        vals = [unparse(v) for v in Q.local_assignments(f.node, var)
-                if v is not None]
-        ctx.ob(R, var + '|from-' + src.split('(')[0], any(
-            src in v for v in vals), f.node,
-            '{} is not computed by {}'.format(var, src))
-    for fld, var in (('Cflags', 'cflags'), ('Libs', 'ldflags'),
-                     ('Libs.private', 'ldflags_private')):
-        hit = [c for c in Q.calls(f.node) if unparse(c.func) ==
-               'self._write_field' and len(c.args) >= 3 and const_eval(
-                   repo, f.module, c.args[1]) == fld]
-        ctx.ob(R, fld + '|value', len(hit) == 1 and unparse(
-            hit[0].args[2]) == var, f.node,
-            '{} is not written from {}'.format(fld, var))
+    for fld, tool, opts_ in (('Cflags', 'compiler', 'options'),
+                             ('Libs', 'linker', 'link_options'),
+                             ('Libs.private', 'linker',
+                              'link_options_private')):
+        if fld not in seen:
+            continue
+        a = seen[fld][1].arg(2)
+        ok = any(".flags(~, mode='pkg-config')" in x for x in a) and has(
+            a, tool) or any(tool in x and "mode='pkg-config'" in x
+                            for x in a)
+        ok = ok and has(a, "['" + opts_ + "']")
+        ctx.ob(R, fld + '|value', ok, f.node,
+               '{} is not computed by the {} in pkg-config mode from the '
+               'package\'s {}'.format(fld, tool, opts_))
 
 
 def pc_ops(ctx):
@@ -179,16 +205,40 @@ def bound_tiebreak(ctx):
     from ..consteval import UNKNOWN, subst_eval
     repo = ctx.repo
     f = repo.func('bfg9000.versioning:simplify_specifiers')
-    keys = [n for n in ast.walk(f.node) if isinstance(n, ast.FunctionDef) and
-            n.name == 'key']
-    Q.require(len(keys) == 1, 'simplify_specifiers: key() not found')
-    ret = Q.returns(keys[0])
-    Q.require(len(ret) == 1 and isinstance(ret[0].value, ast.Tuple) and
-              len(ret[0].value.elts) == 2, 'key(): (version, rank) expected')
+    # the ordering function handed to max()/min() as key=
+    keyexprs = []
+    for c in ast.walk(f.node):
+        if isinstance(c, ast.Call) and isinstance(c.func, ast.Name) and \
+                c.func.id in ('max', 'min'):
+            k = Q.kwarg(c, 'key')
+            if k is not None:
+                keyexprs.append(k)
+    Q.require(keyexprs, 'simplify_specifiers: no max()/min() with key=')
+    kfn, kparam, kret = None, None, None
+    k0 = keyexprs[0]
+    if isinstance(k0, ast.Lambda):
+        kfn, kparam, kret = k0, k0.args.args[0].arg, k0.body
+    elif isinstance(k0, ast.Name):
+        for n in ast.walk(f.node):
+            if isinstance(n, ast.FunctionDef) and n.name == k0.id:
+                rr = Q.returns(n)
+                if len(rr) == 1:
+                    kfn, kparam, kret = n, n.args.args[0].arg, rr[0].value
+        if kfn is None:
+            r_ = repo.resolve_symbol(f.module.name, k0.id)
+            if r_ is not None and r_[0] == 'func':
+                rr = Q.returns(r_[1].node)
+                if len(rr) == 1:
+                    kfn, kparam = r_[1].node, r_[1].node.args.args[0].arg
+                    kret = rr[0].value
+    Q.require(kfn is not None and isinstance(kret, ast.Tuple) and
+              len(kret.elts) == 2, 'ordering key: (version, rank) expected')
+    keys = [kfn]
+    ret = [ast.Return(value=kret)]
     rank = {}
     for op in ('>', '>=', '<', '<='):
-        v = subst_eval(repo, f.module, ret[0].value.elts[1],
-                       {'s.operator': op})
+        v = subst_eval(repo, f.module, kret.elts[1],
+                       {kparam + '.operator': op})
         rank[op] = v
     ctx.stat('specifier_rank', {k: repr(v) for k, v in rank.items()})
     ok = all(isinstance(v, int) for v in rank.values())
@@ -200,13 +250,37 @@ def bound_tiebreak(ctx):
         ctx.ob(R, 'upper-bound|<-beats-<=', rank['<'] < rank['<='], keys[0],
                'for equal versions min() keeps <= over <: the excluded '
                'version is accepted')
-    t = unparse(f.node)
-    ok = 'gt = i if gt is None else max(gt, i, key=key)' in t and \
-        'lt = i if lt is None else min(lt, i, key=key)' in t
-    ctx.ob(R, 'bounds|max-for-lower,min-for-upper', ok, f.node,
+    F = _facts(ctx)
+    ok_lo = ok_hi = False
+    for c in ast.walk(f.node):
+        if isinstance(c, ast.Call) and isinstance(c.func, ast.Name) and \
+                c.func.id in ('max', 'min') and Q.kwarg(c, 'key') is not None:
+            cmps = F.guard_compares(c, f)
+            ops_ = set()
+            for op, l, r in cmps:
+                if op not in ('In', 'Eq'):
+                    continue
+                for side in (l, r):
+                    for a in side:
+                        if a.startswith('const:'):
+                            try:
+                                v = ast.literal_eval(a[6:])
+                            except Exception:
+                                continue
+                            for x in (v if isinstance(v, (list, tuple))
+                                      else [v]):
+                                if x in ('>', '>=', '<', '<='):
+                                    ops_.add(x)
+            if c.func.id == 'max' and ops_ and ops_ <= {'>', '>='}:
+                ok_lo = True
+            if c.func.id == 'min' and ops_ and ops_ <= {'<', '<='}:
+                ok_hi = True
+    ctx.ob(R, 'bounds|max-for-lower,min-for-upper', ok_lo and ok_hi, f.node,
            'lower bounds are not combined with max / upper with min')
-    ok = unparse(ret[0].value.elts[0]) == 's.version'
-    ctx.ob(R, 'key|version-first', ok, keys[0], '')
+    ok = has(F.atoms(kret.elts[0], f), kparam, 'version') or \
+        unparse(kret.elts[0]) == kparam + '.version'
+    ctx.ob(R, 'key|version-first', ok, keys[0],
+           'bounds are not ordered by version first')
 
 
 def req_single(ctx):
@@ -257,50 +331,46 @@ def pc_vars(ctx):
              'srcdir and builddir when uninstalled; names agree with '
              'shell.syntax.path_vars')
     repo = ctx.repo
-    f = repo.method(PKG + ':PkgConfigWriter', '_write')
-    branch = [n for n in walk_no_nested(f.node) if isinstance(n, ast.If) and
-              unparse(n.test) == 'installed' and any(
-                  isinstance(s, ast.For) for s in n.body)]
-    Q.require(len(branch) == 1, '_write: installed/uninstalled variable '
-              'block not found')
-    b = branch[0]
-    loop = [s for s in b.body if isinstance(s, ast.For)][0]
-    ok = unparse(loop.iter).endswith('InstallRoot')
+    F = _facts(ctx)
+    f = F.fn(PKG + ':PkgConfigWriter._write')
+    wv = F.calls_to(f, '_write_variable', depth=1)
+    inst = [e for e in wv if has(e.arg(1), 'InstallRoot', 'name')]
+    ok = bool(inst) and all(
+        has(e.arg(2), 'install_dirs') and any(
+            pos and param_of(F.atoms(t, f_, b_), 'installed')
+            for t, pos, f_, b_ in F.guard_leaves(e.call, e.fn))
+        for e in inst)
     excl = set()
-    inner = loop.body
-    if len(inner) == 1 and isinstance(inner[0], ast.If):
-        t = inner[0].test
-        if isinstance(t, ast.Compare) and isinstance(t.ops[0], ast.NotEq):
-            v = const_eval(repo, f.module, t.comparators[0])
-            if isinstance(v, EnumMember):
-                excl.add(v.name)
-        inner = inner[0].body
-    wv = [c for s in inner for c in ast.walk(s) if isinstance(c, ast.Call)
-          and unparse(c.func) == 'self._write_variable']
-    ok = ok and len(wv) == 1 and unparse(wv[0].args[1]) == 'i.name' and \
-        unparse(wv[0].args[2]) == 'env.install_dirs[i]'
+    for e in inst:
+        for op, l, r in F.guard_compares(e.call, e.fn):
+            for side in (l, r):
+                for a in side:
+                    if 'InstallRoot.' in a and op == 'NotEq':
+                        excl.add(a.split('.')[-1])
+                    elif 'InstallRoot.' in a and op not in ('NotEq',):
+                        excl.add('?' + a.split('.')[-1])
     ctx.ob(R, 'installed|all-install-roots', ok and excl <= {'bindir'},
-           loop, 'installed variant does not define every install root '
+           f.node, 'installed variant does not define every install root '
            '(excluded: {})'.format(sorted(excl)))
-    names = set()
-    for s in b.orelse:
-        for c in ast.walk(s):
-            if isinstance(c, ast.Call) and unparse(c.func) == \
-                    'self._write_variable' and len(c.args) >= 2:
-                v = const_eval(repo, f.module, c.args[1])
-                if isinstance(v, str):
-                    names.add(v)
-    ctx.ob(R, 'uninstalled|srcdir+builddir', {'srcdir', 'builddir'} <= names,
-           b, 'uninstalled variant defines {}'.format(sorted(names)))
-    # builddir relative to the .pc file
-    bd = [c for s in b.orelse for c in ast.walk(s) if isinstance(c, ast.Call)
-          and unparse(c.func) == 'self._write_variable' and const_eval(
-              repo, f.module, c.args[1]) == 'builddir']
-    ok = len(bd) == 1 and '${pcfiledir}' in unparse(bd[0].args[2]) and \
-        'self.directory' in unparse(bd[0].args[2])
-    ctx.ob(R, 'uninstalled|builddir-relative-to-pcfiledir', ok, b,
+    names = {}
+    for e in wv:
+        for a in direct(e.arg(1)):
+            if a.startswith('const:'):
+                try:
+                    names[ast.literal_eval(a[6:])] = e
+                except Exception:
+                    pass
+    un = {n_: e for n_, e in names.items() if any(
+        not pos and param_of(F.atoms(t, f_, b_), 'installed')
+        for t, pos, f_, b_ in F.guard_leaves(e.call, e.fn))}
+    ctx.ob(R, 'uninstalled|srcdir+builddir',
+           {'srcdir', 'builddir'} <= set(un), f.node,
+           'uninstalled variant defines {}'.format(sorted(un)))
+    bd = un.get('builddir')
+    ok = bd is not None and any('${pcfiledir}' in a for a in bd.arg(2)) \
+        and has(bd.arg(2), 'self.directory')
+    ctx.ob(R, 'uninstalled|builddir-relative-to-pcfiledir', ok, f.node,
            'builddir is not defined relative to ${pcfiledir}')
-    # path_vars naming
     m = repo.module(E.PC_SYN)
     pv = m.assigns.get('path_vars')
     ok = pv is not None and isinstance(pv, ast.DictComp) and unparse(
@@ -311,11 +381,17 @@ def pc_vars(ctx):
     ctx.ob(R, 'path_vars|named-after-roots', ok, None,
            'shell.syntax.path_vars no longer maps every root to a variable '
            'of the same name')
-    # installed variant installifies every path
-    vals = [unparse(v) for v in Q.local_assignments(f.node, 'installify_fn')
-            if v is not None]
-    ctx.ob(R, 'installed|paths-installified',
-           vals == ['self._installify if installed else identity'], f.node,
+    # installed variant installifies every path: the function applied to
+    # includes/libs is self._installify exactly when `installed`
+    ins = [n for n in ast.walk(f.node) if isinstance(n, ast.Attribute) and
+           n.attr == '_installify']
+    ok = bool(ins) and all(any(
+        pos and param_of(F.atoms(t, f_, b_), 'installed')
+        for t, pos, f_, b_ in F.guard_leaves(n, f)) for n in ins)
+    used = [e for e in F.effects(f, lambda e: True, depth=0)
+            if has(e.heads(), 'self._installify')]
+    ok = ok and len(used) >= 2
+    ctx.ob(R, 'installed|paths-installified', ok, f.node,
            'installed variant does not map paths to their installed '
            'location')
 
@@ -328,8 +404,8 @@ def check(ctx):
         'all versions']
     esc_pc(ctx)
     field_syntax(ctx)
-    E.write_flow(ctx, E.PC_SYN, {'shell'}, has_escape=False)
-    E.literal_origin(ctx)
+    E2.write_flow(ctx, E.PC_SYN, {'shell'}, has_escape=False)
+    E2.literal_origin(ctx)
     pc_ops(ctx)
     req_single(ctx)
     bound_tiebreak(ctx)
